@@ -3454,11 +3454,11 @@ where
               // For type expression constraints, we would need to evaluate the type
               // For now, accept any tag value (this could be enhanced later)
             }
-          } else if *actual_tag > 0 {
-            self.add_error(format!(
-              "expected tagged data #6({}), got {:?}",
-              t, self.cbor
-            ));
+          }
+          // `#6(t)` and `#6` carry no tag number: any tag matches
+
+          // `#6` / `#6.n` without content constrain the tag only
+          if t.type_choices.is_empty() {
             return Ok(());
           }
 
